@@ -18,7 +18,7 @@ for d in /verif/seeded/*/; do
     [ $hit = 1 ] || continue
   fi
   prop=$(/venv/bin/python -c "import json,sys;print(json.load(open(sys.argv[1]))['property'])" "$d/meta.json")
-  git -C "$wt" checkout -q -- . && git -C "$wt" clean -fdq
+  git -C "$wt" reset -q --hard HEAD && git -C "$wt" clean -fdq
   if ! git -C "$wt" apply "$d/patch.diff" 2>/dev/null && ! git -C "$wt" apply --3way "$d/patch.diff" 2>/dev/null; then
     echo "$name $prop applied=no exit=- detected=no"; bad=1; continue
   fi
